@@ -108,7 +108,12 @@ func (p *RunnableProcessor) Process(ctx context.Context, records []opencdc.Recor
 				}
 			}
 		}
-		if err != nil {
+		if err != nil && len(outRecs) == len(keptRecords) {
+			// The error belongs to the record right after the evaluated ones.
+			// If the processor returned fewer results than it was given, the
+			// results end before that record (see below), so the error is left
+			// out rather than attributed to a different record; it resurfaces
+			// when the records without a result are processed again.
 			outRecs = append(outRecs, sdk.ErrorRecord{Error: err})
 		}
 
@@ -121,19 +126,32 @@ func (p *RunnableProcessor) Process(ctx context.Context, records []opencdc.Recor
 				outRecs[i] = sdk.SingleRecord(rec)
 			}
 		} else if len(passthroughRecordIndexes) > 0 {
-			tmp := make([]sdk.ProcessedRecord, len(outRecs)+len(passthroughRecordIndexes))
-			prevIndex := -1
-			for i, index := range passthroughRecordIndexes {
-				// TODO index-i can be out of bounds if the processor returns
-				//  fewer records than the input.
-				copy(tmp[prevIndex+1:index], outRecs[prevIndex-i+1:index-i])
-				tmp[index] = sdk.SingleRecord(records[index])
-				prevIndex = index
+			// Walk the evaluated records in their original order: a record
+			// that did not match the condition is passed through unchanged at
+			// its own index, a record that matched gets the next result of the
+			// processor. The processor can return fewer results than it was
+			// given, so outRecs must never be indexed by record position: the
+			// results then end right before the first record without one
+			// (callers treat the missing tail as "not processed"), instead of
+			// slicing outRecs out of range.
+			evaluated := len(keptRecords) + len(passthroughRecordIndexes)
+			tmp := make([]sdk.ProcessedRecord, 0, len(outRecs)+len(passthroughRecordIndexes))
+			nextOut, nextPassthrough := 0, 0
+			for i := 0; i < evaluated; i++ {
+				if nextPassthrough < len(passthroughRecordIndexes) && passthroughRecordIndexes[nextPassthrough] == i {
+					tmp = append(tmp, sdk.SingleRecord(records[i]))
+					nextPassthrough++
+					continue
+				}
+				if nextOut == len(outRecs) {
+					break // no result for this record, nor for any after it
+				}
+				tmp = append(tmp, outRecs[nextOut])
+				nextOut++
 			}
-			// if the last index is not the last record, copy the rest
-			if passthroughRecordIndexes[len(passthroughRecordIndexes)-1] != len(tmp)-1 {
-				copy(tmp[prevIndex+1:], outRecs[prevIndex-len(passthroughRecordIndexes)+1:])
-			}
+			// if all evaluated records got a result, copy the rest (the
+			// condition error, if any)
+			tmp = append(tmp, outRecs[nextOut:]...)
 			outRecs = tmp
 		}
 	}
